@@ -1,7 +1,7 @@
 // c18obs: incremental (REPL-style) evaluation on ONE compiler and ONE VM, exactly as
 // cmd/risor/repl getEvaluator does, next to whole-program evaluation.
 //
-//	c18obs < lines "hexpiece,hexpiece,..."  ->
+//	c18obs < lines "[name:hexmodule;name:hexmodule@]hexpiece,hexpiece,..."  ->
 //	  INC <r1>|<r2>|... GLOBALS name=val;...  \t WHOLE <result> GLOBALS name=val;...
 //	piece result: OK <val> | REJECT parse | REJECT compile left=<opcodes emitted before the rejection> syms=<n> codes=<n> | ERR <class>
 //
@@ -94,7 +94,7 @@ func globalsOf(machine *vm.VirtualMachine, code *compiler.Code) string {
 	sort.Strings(names)
 	var parts []string
 	for _, n := range names {
-		if n == "len" || n == "print" || n == "hostfn" || n == "chan" || n == "spawn" {
+		if hostNames[n] {
 			continue
 		}
 		o, err := machine.Get(n)
@@ -133,11 +133,7 @@ func main() {
 	sc := bufio.NewScanner(os.Stdin)
 	sc.Buffer(make([]byte, 1<<20), 1<<24)
 	for sc.Scan() {
-		var pieces []string
-		for _, h := range strings.Split(sc.Text(), ",") {
-			b, _ := hex.DecodeString(h)
-			pieces = append(pieces, string(b))
-		}
+		mods, pieces := splitCase(sc.Text())
 		func() {
 			defer func() {
 				if r := recover(); r != nil {
@@ -163,6 +159,11 @@ func main() {
 				globals := map[string]any{"len": builtins.Builtins()["len"], "print": printFn, "hostfn": hostFn,
 					"limit": int64(10), "hostlist": []any{int64(1), int64(2)},
 					"chan": builtins.Builtins()["chan"], "spawn": builtins.Builtins()["spawn"]}
+				globals["setfuse"], globals["fuse"] = fuseBuiltins()
+				if mods != nil {
+					return risor.NewConfig(risor.WithoutDefaultGlobals(), risor.WithGlobals(globals), risor.WithConcurrency(),
+						risor.WithImporter(newImporter(mods, globals)))
+				}
 				return risor.NewConfig(risor.WithoutDefaultGlobals(), risor.WithGlobals(globals), risor.WithConcurrency())
 			}
 			cfg := mkcfg()
